@@ -188,6 +188,35 @@ def r2(repo, run):
                 bad.append('a name %s gives %s (required: NameError)' % (where, r.raised or repr(r.ret)))
         elif r.raised is not None or r.ret != want:
             bad.append('a name %s resolves to %s (required: %s)' % (where, r.raised or repr(r.ret), want))
+    # the same top-level name asked for again while its entry is being evaluated (the code of a node inside a container refers to that
+    # container by name: `cfg: {p: 1, q: !eval cfg.p + 1}` reached through `z: !eval cfg.q`): the partially evaluated container is what
+    # the inner lookup gets - the lookup itself never fails
+    ctx = Obj('ctx', 'EvalContext')
+    ecfg = Obj('ecfg', 'EvalContext.PartialChild', _cfgobj={'n': 'node'})
+    inner = []
+
+    def nested(name, recv, args, kwargs):
+        if name != '__getitem__':
+            return None
+        if not inner:
+            inner.append(None)
+            w2 = Obj('inner wrapper', 'GlobalsWrapper', gbls={}, ecfg=ecfg, ctx=ctx, node=Obj('inner node', 'EvalNode'), path=['n', 'q'])
+            r2 = ev.call(fi, w2, 'n')
+            inner[0] = r2.raised or r2.ret
+        return ('config', args[0])
+    ev = FDE(repo, stubs={'__getitem__', 'require_all_safe'}, stub=nested)
+    ev.free['__builtins__'] = {}
+    w = Obj('wrapper', 'GlobalsWrapper', gbls={}, ecfg=ecfg, ctx=ctx, node=Obj('node', 'EvalNode'), path=['z'])
+    try:
+        r = ev.call(fi, w, 'n')
+        rb = ev.call(fi, w, 'n')        # and once more afterwards
+    except Unsupported as e:
+        raise AnalysisError('GlobalsWrapper.__getattr__ (nested lookup of the same name): finite-domain evaluator refused: %s' % e)
+    rows += 1
+    if r.raised or inner != [('config', 'n')] or r.ret != ('config', 'n'):
+        bad.append('a top-level name looked up again by a node inside the entry being evaluated gives %s / the outer lookup %s (required: the config entry both times - partially evaluated containers are handed out by design)' % (inner[0] if inner else 'nothing', r.raised or repr(r.ret)))
+    elif rb.raised or rb.ret != ('config', 'n'):
+        bad.append('the same name looked up again after its evaluation finished gives %s' % (rb.raised or repr(rb.ret)))
     if bad:
         run.violation('C12.R2', fi, 'name resolution order', '%s; required: own globals (definitions, symbols), then config, then builtins, else NameError' % '; '.join(bad[:3]))
     else:
@@ -930,6 +959,7 @@ def mutants(repo):
         Mutant('context-shares-default-symbols', lambda r: in_func(r, 'EvalContext.__init__', "self._eval_symbols = copy.copy(EvalContext._default_eval_symbols)", "self._eval_symbols = EvalContext._default_eval_symbols"), ['C12.R1']),
         Mutant('wrapper-persisted-in-cached-namespace', lambda r: in_func(r, 'EvalNode.ayns.on_evaluate_impl', "        del gbls[EvalNode._globals_wrapper_name]\n", ""), ['C12.R1b']),
         Mutant('wrapper-only-for-fresh-namespace', lambda r: in_func(r, 'EvalNode.ayns.on_evaluate_impl', "        gbls[EvalNode._globals_wrapper_name] = GlobalsWrapper(gbls, ctx.ecfg, ctx, self, path)\n", "        if not from_module:\n            gbls[EvalNode._globals_wrapper_name] = GlobalsWrapper(gbls, ctx.ecfg, ctx, self, path)\n"), ['C12.R1b']),
+        Mutant('repeated-lookup-of-a-name-refused', lambda r: in_func(r, 'GlobalsWrapper.__getattr__', "            with self.ctx.require_all_safe(self.node, self.path):\n                return self.ecfg[name]", "            busy = self.ctx.__dict__.setdefault('_busy_names', set())\n            if name in busy:\n                raise NameError(name)\n            busy.add(name)\n            try:\n                with self.ctx.require_all_safe(self.node, self.path):\n                    return self.ecfg[name]\n            finally:\n                busy.discard(name)"), ['C12.R2']),
         Mutant('config-before-own-globals', lambda r: in_func(r, 'GlobalsWrapper.__getattr__',
                "        if name in self.gbls:\n            return self.gbls[name]\n\n        if name in self.ecfg._cfgobj:\n            with self.ctx.require_all_safe(self.node, self.path):\n                return self.ecfg[name]\n        elif",
                "        if name in self.ecfg._cfgobj:\n            with self.ctx.require_all_safe(self.node, self.path):\n                return self.ecfg[name]\n        elif name in self.gbls:\n            return self.gbls[name]\n        elif"), ['C12.R2']),
